@@ -208,7 +208,32 @@ const REG_NAMES: [&str; 4] = ["q", "r", "anc", "w2"];
 fn spell(phase: (i64, i64), spelling: u8) -> (String, (i64, i64), bool) {
     let (k, d) = norm_phase(phase);
     let exact_decimal = [1i64, 2, 4, 5, 8, 10, 16].contains(&d);
-    match spelling % 9 {
+    // expressions mixing a radian constant with a multiple of pi (sums, differences, unary minus,
+    // parentheses, integer factors): the expected value is computed here in f64
+    let xs = [0.5f64, 0.25, 1.2, 0.1, 2.0, 0.375, 3.0, 0.7];
+    let x = xs[((k.unsigned_abs() as usize) * 3 + d as usize) % xs.len()];
+    let approx_of = |v: f64| norm_phase(((v * 1e7).round() as i64, 10_000_000));
+    let kd = k as f64 / d as f64;
+    let pi = std::f64::consts::PI;
+    match spelling % 18 {
+        9 => {
+            let t = if k < 0 { format!("{x} - {}*pi/{d}", -k) } else { format!("{x} + {k}*pi/{d}") };
+            return (t, approx_of(kd + x / pi), false);
+        }
+        10 => return (format!("{k}*pi/{d} - {x}"), approx_of(kd - x / pi), false),
+        11 => return (format!("({k}*pi/{d} + {x})"), approx_of(kd + x / pi), false),
+        12 => return (format!("-{x} + pi/{d}"), approx_of(1.0 / d as f64 - x / pi), false),
+        13 => return (format!("2*({k}*pi/{})", 2 * d), (k, d), true),
+        14 => return (format!("{k}*pi/{d} + pi/2"), norm_phase((2 * k + d, 2 * d)), true),
+        15 => return (format!("-({}*pi/{d})", -k), (k, d), true),
+        16 => return (format!("{x} + {}", xs[(d as usize) % xs.len()]), approx_of((x + xs[(d as usize) % xs.len()]) / pi), false),
+        17 => {
+            let t = if k < 0 { format!("pi/{d} - {x} - {}*pi/{d}", -k) } else { format!("pi/{d} - {x} + {k}*pi/{d}") };
+            return (t, approx_of((k + 1) as f64 / d as f64 - x / pi), false);
+        }
+        _ => {}
+    }
+    match spelling % 18 {
         0 => (format!("{k}*pi/{d}"), (k, d), true),
         1 => (format!("pi*{k}/{d}"), (k, d), true),
         2 => (format!("{k}/{d}*pi"), (k, d), true),
@@ -248,9 +273,9 @@ fn spell(phase: (i64, i64), spelling: u8) -> (String, (i64, i64), bool) {
     }
 }
 
-struct Built {
-    text: String,
-    expected: Option<Circ>, // None = must be rejected
+pub struct Built {
+    pub text: String,
+    pub expected: Option<Circ>, // None = must be rejected
     approx: bool,
     bad_first: bool,
     bad_kind: Option<Unsupported>,
@@ -258,7 +283,7 @@ struct Built {
     nregs: usize,
 }
 
-fn build(c: &TextCase) -> Built {
+pub fn build(c: &TextCase) -> Built {
     let sizes: Vec<usize> = c.regs.iter().take(4).map(|&s| 1 + (s as usize % 3)).collect();
     let sizes = if sizes.is_empty() { vec![2] } else { sizes };
     let mut base = vec![];
@@ -526,7 +551,7 @@ fn stmt_spec(bad: bool) -> BoxedStrategy<StmtSpec> {
         prop::sample::select(kinds),
         prop::collection::vec(arg_spec(), 3),
         phase_small(),
-        0u8..9,
+        0u8..18,
     )
         .prop_map(|(k, args, phase, spelling)| StmtSpec::Gate {
             k,
@@ -534,7 +559,7 @@ fn stmt_spec(bad: bool) -> BoxedStrategy<StmtSpec> {
             phase,
             spelling,
         });
-    let user = (prop::collection::vec(arg_spec(), 2), phase_small(), 0u8..9).prop_map(
+    let user = (prop::collection::vec(arg_spec(), 2), phase_small(), 0u8..18).prop_map(
         |(args, phase, spelling)| StmtSpec::UserGate {
             args,
             phase,
@@ -567,7 +592,7 @@ fn stmt_spec(bad: bool) -> BoxedStrategy<StmtSpec> {
     }
 }
 
-fn text_case(bad: bool) -> BoxedStrategy<TextCase> {
+pub fn text_case(bad: bool) -> BoxedStrategy<TextCase> {
     (
         prop::collection::vec(0u8..3, 1..=3),
         0u8..3,
@@ -602,7 +627,7 @@ pub fn def(ctx: &Ctx) -> PropertyDef {
     };
     PropertyDef {
         id: "C14",
-        rule: "(a) circuits over rz/rx/x/z/s/t/sdg/tdg/h/cx/cz/ccx/ccz/swap/xcx/init_anc/post_sel on 1-8 qubits incl. zero gates, phases k/d: from_qasm(to_qasm(c)) must equal c (qubit count, gate kinds, qubit arguments, phases exactly for d<=16; larger d generated, reported and compared to 1e-9). (b) grammar-generated QASM: 1-3 qregs of sizes 1-3, a creg, optional include, comments, a user gate definition, builtin CX, measure, register broadcast, phase spellings k*pi/d, pi*k/d, k/d*pi, (k*pi)/d, pi/d, -pi/d, decimal multiples of pi, radians as decimals, extra full turns: parsed circuit must equal the expected gate list with register offsets in declaration order (radians to 1e-5 half-turns); texts with barrier / reset / if / U(...) / undefined gate names / syntax and range errors (first or after supported gates) must return Err - no panic, no silently dropped gate. Non-trivial = phase gate with d>=3 together with several registers or a three-qubit gate; error text whose offending construct is not first.",
+        rule: "(a) circuits over rz/rx/x/z/s/t/sdg/tdg/h/cx/cz/ccx/ccz/swap/xcx/init_anc/post_sel on 1-8 qubits incl. zero gates, phases k/d: from_qasm(to_qasm(c)) must equal c (qubit count, gate kinds, qubit arguments, phases exactly for d<=16; larger d generated, reported and compared to 1e-9). (b) grammar-generated QASM: 1-3 qregs of sizes 1-3, a creg, optional include, comments, a user gate definition, builtin CX, measure, register broadcast, phase spellings k*pi/d, pi*k/d, k/d*pi, (k*pi)/d, pi/d, -pi/d, decimal multiples of pi, radians as decimals, extra full turns, and expressions mixing a radian constant with a multiple of pi (x + k*pi/d, k*pi/d - x, parenthesised, -x + pi/d, 2*(k*pi/2d), k*pi/d + pi/2, -(-k*pi/d), x + y, three-term sums): parsed circuit must equal the expected gate list with register offsets in declaration order (radians to 1e-5 half-turns); texts with barrier / reset / if / U(...) / undefined gate names / syntax and range errors (first or after supported gates) must return Err - no panic, no silently dropped gate. Non-trivial = phase gate with d>=3 together with several registers or a three-qubit gate; error text whose offending construct is not first.",
         assumptions: vec![
             "expected gate lists are produced by the generator alongside the text (own model of register layout and broadcast order)",
         ],
